@@ -241,9 +241,9 @@ Definition plain_char (a : ascii) : bool :=
   negb (Ascii.eqb a "#") && negb (Ascii.eqb a ":") && negb (Ascii.eqb a "=")
   && negb (Ascii.eqb a "'") && negb (Ascii.eqb a """") && negb (Ascii.eqb a NL).
 Definition text_ok (s : string) : bool := str_all plain_char s && edge_ok s.       (* may be empty *)
-(* comment texts (block above, inline): anything but quote characters and newlines - '#', ':' and '=' included *)
-Definition cmark_char (a : ascii) : bool :=
-  negb (Ascii.eqb a "'") && negb (Ascii.eqb a """") && negb (Ascii.eqb a NL).
+(* comment texts (block above, inline): anything but a newline - '#', ':', '=', quote characters and whole
+   triple-quote tokens included *)
+Definition cmark_char (a : ascii) : bool := negb (Ascii.eqb a NL).
 Definition mark_ok (s : string) : bool := str_all cmark_char s && edge_ok s && str_nonempty s.
 Definition type_char (a : ascii) : bool :=
   negb (Ascii.eqb a "#") && negb (Ascii.eqb a ":") && negb (Ascii.eqb a "=").
@@ -291,17 +291,17 @@ Definition cdef : string -> bool := contains_def "#" ":" "=".
 
 Lemma bridge_view : view_gen = vw.
 Proof. reflexivity. Qed.
-Lemma bridge_scan_lines : scan_lines_gen = fun lines f => find_field FIX_WALK f [] (map vw lines).
+Lemma bridge_scan_lines : scan_lines_gen = fun lines f => find_field FIX_WALK walk_stops_at_quote_lines_gen f [] (map vw lines).
 Proof. reflexivity. Qed.
 
 (* header lines (decorators, the class line, what is left of the class docstring): not field definitions, and
    either a line the upward walk stops at (a triple quote; with the walk repair: any code line) or without a comment *)
-Definition hdr_ok (so : bool) (v : lview) : bool :=
-  negb (v_isdef v) && (v_quote v || (so && negb (v_empty v || v_iscomment v)) || String.eqb (v_comment v) "").
+Definition hdr_ok (so sq : bool) (v : lview) : bool :=
+  negb (v_isdef v) && (walk_stop so sq v || String.eqb (v_comment v) "").
 
 Definition wf_layout (L : layout) : bool :=
   match l_hdr L with [] => false | _ => true end
-  && forallb (fun l => hdr_ok FIX_WALK (view_gen l)) (l_hdr L)
+  && forallb (fun l => hdr_ok FIX_WALK walk_stops_at_quote_lines_gen (view_gen l)) (l_hdr L)
   && forallb fld_ok (l_fields L).
 
 (* ---------- consequences of the boolean predicates ---------- *)
@@ -355,25 +355,20 @@ Section CommentLine.
   Let line := ind ++ "# " ++ c.
 
   Lemma comment_line_view :
-    v_isdef (vw line) = false /\ v_quote (vw line) = false /\ v_empty (vw line) = false
+    v_isdef (vw line) = false /\ v_empty (vw line) = false
     /\ v_iscomment (vw line) = true /\ v_comment (vw line) = c.
   Proof.
     destruct (mark_ok_parts c Hc) as [Hp [He Hne]].
     assert (Hbody : edge_ok ("# " ++ c) = true).
     { apply (edge_ok_app "# " c); [discriminate | exact Hne | reflexivity | now apply edge_ok_last]. }
     assert (Hstrip : strip line = "# " ++ c) by (apply strip_pad_l; assumption).
-    unfold vw, view; cbn [v_isdef v_quote v_empty v_iscomment v_comment].
+    unfold vw, view; cbn [v_isdef v_empty v_iscomment v_comment].
     repeat split.
     - (* everything from the first '#' on is cut off before the line is examined *)
       unfold cdef, contains_def, line.
       rewrite before_char_app_no by (now apply spaces_no).
       change ("# " ++ c) with (String "#" (" " ++ c)). rewrite before_char_hit, append_nil_r.
       now rewrite (spaces_no ":" ind eq_refl Hind).
-    - apply orb_false_iff. split; apply contains_none; unfold line.
-      + assert (has_char cD ind = false) by (now apply spaces_no).
-        assert (has_char cD c = false) by (now apply (str_all_no_char cmark_char)). nochar.
-      + assert (has_char cS ind = false) by (now apply spaces_no).
-        assert (has_char cS c = false) by (now apply (str_all_no_char cmark_char)). nochar.
     - rewrite Hstrip. reflexivity.
     - rewrite Hstrip. reflexivity.
     - unfold comment_of, line.
@@ -753,10 +748,16 @@ Section DocLines.
   (* closing line *)
   Lemma doc_close_view z : text_ok z = true ->
     let line := ind ++ z ++ qtok q in
-    v_isdef (vw line) = false /\ v_quote (vw line) = true /\ v_close (mq q) (vw line) = Some z.
+    v_isdef (vw line) = false /\ v_quote (vw line) = true /\ v_close (mq q) (vw line) = Some z
+    /\ v_empty (vw line) = false /\ v_iscomment (vw line) = false.
   Proof.
     intros Hz line. unfold line. rewrite !qtok_tok3.
     destruct (text_ok_parts z Hz) as [Hp He]. destruct (text_no_quote q z Hp) as [Hq Ho].
+    assert (Hbody : edge_ok (z ++ tok3 (qc q)) = true).
+    { destruct z as [|a z']; [destruct q; reflexivity|].
+      apply edge_ok_app; [discriminate | destruct q; discriminate | now apply edge_ok_first | destruct q; reflexivity]. }
+    assert (Hstrip : strip (ind ++ z ++ tok3 (qc q)) = z ++ tok3 (qc q)) by (now apply strip_pad_l).
+    assert (Hhash : has_char "#" z = false) by (now apply plain_no).
     assert (Hcolon : has_char ":" z = false) by (now apply plain_no).
     assert (Hsplit : split_first (tok3 (qc q)) (ind ++ z ++ tok3 (qc q)) = Some (ind ++ z, "")).
     { replace (ind ++ z ++ tok3 (qc q)) with ((ind ++ z) ++ tok3 (qc q) ++ "")
@@ -768,6 +769,11 @@ Section DocLines.
     - replace (v_close (mq q) (vw (ind ++ z ++ tok3 (qc q))))
         with (close_of (tok3 cS) (tok3 cD) (mq q) (ind ++ z ++ tok3 (qc q))) by (destruct q; reflexivity).
       rewrite close_of_q, Hsplit. f_equal. now apply strip_pad_l.
+    - unfold vw, view; cbn [v_empty]. rewrite Hstrip. destruct z; destruct q; reflexivity.
+    - unfold vw, view; cbn [v_iscomment]. rewrite Hstrip. destruct z as [|a z'].
+      + destruct q; reflexivity.
+      + cbn [has_char] in Hhash. apply orb_false_iff in Hhash as [Ha _]. cbn [append prefixb].
+        rewrite Ascii.eqb_sym, Ha. reflexivity.
   Qed.
 End DocLines.
 
@@ -826,7 +832,7 @@ Section Groups.
     doc_body (mq q) (V (map (fun m => ind ++ m) ms) ++ vw (ind ++ z ++ qtok q) :: rest) = (ms ++ [z])%list.
   Proof.
     intros Hms Hz. induction ms as [|m r IH]; simpl.
-    - destruct (doc_close_view ind q Hind z Hz) as [_ [_ Hc]]. now rewrite Hc.
+    - destruct (doc_close_view ind q Hind z Hz) as [_ [_ [Hc _]]]. now rewrite Hc.
     - simpl in Hms. apply andb_true_iff in Hms as [Hm Hr].
       destruct (doc_mid_view ind q Hind m Hm) as [_ [Hc Hs]].
       rewrite Hc. f_equal; [exact Hs | exact (IH Hr)].
@@ -853,14 +859,14 @@ Section Groups.
     destruct (f_above g) as [|c cs].
     - simpl. destruct (fline_view g H) as [A [_ [C _]]]. now rewrite C, A.
     - simpl in Hab. apply andb_true_iff in Hab as [Hc _].
-      destruct (comment_line_view ind c Hind Hc) as [A [_ [C [D _]]]].
+      destruct (comment_line_view ind c Hind Hc) as [A [C [D _]]].
       unfold V. cbn [map app doc_open]. unfold cline. now rewrite C, A, D.
   Qed.
 
   (* ----- lines that do not define f ----- *)
-  Lemma find_field_skip so f vs : forall ctx rest,
+  Lemma find_field_skip so sq f vs : forall ctx rest,
     (forall v, In v vs -> defines f v = false) ->
-    find_field so f ctx (vs ++ rest) = find_field so f (rev vs ++ ctx) rest.
+    find_field so sq f ctx (vs ++ rest) = find_field so sq f (rev vs ++ ctx) rest.
   Proof.
     induction vs as [|v r IH]; intros ctx rest H; [reflexivity|].
     simpl. rewrite (H v (or_introl eq_refl)).
@@ -887,16 +893,6 @@ Section Groups.
   Lemma blanks_views n v : In v (V (repeat "" n)) -> v = vw "".
   Proof. induction n as [|k IH]; simpl; [intros [] | intros [H|H]; [now subst | exact (IH H)]]. Qed.
 
-  Lemma comments_views cs v : forallb mark_ok cs = true -> In v (V (map cline cs)) ->
-    v_isdef v = false /\ v_quote v = false /\ v_empty v = false /\ v_comment v
-      = v_comment v /\ exists c, In c cs /\ v = vw (cline c).
-  Proof.
-    intros Hcs Hv. unfold V in Hv. rewrite map_map in Hv. apply in_map_iff in Hv as [c [<- Hc]].
-    rewrite forallb_forall in Hcs.
-    destruct (comment_line_view ind c Hind (Hcs c Hc)) as [A [B [C _]]].
-    repeat split; try assumption. now exists c.
-  Qed.
-
   (* the lines above the field line of a group: blanks and comments *)
   Definition pre_lines (g : fld) : list string := (repeat "" (f_blank g) ++ map cline (f_above g))%list.
 
@@ -905,15 +901,15 @@ Section Groups.
   Proof. reflexivity. Qed.
 
   Lemma pre_not_stop g v : fld_ok g = true -> In v (V (pre_lines g)) ->
-    v_isdef v = false /\ forall so, walk_stop so v = false.
+    v_isdef v = false /\ forall so, walk_stop so false v = false.
   Proof.
     intros H Hv. destruct (fld_ok_parts g H) as [_ [_ [_ [Hab _]]]].
     unfold pre_lines in Hv. rewrite V_app in Hv. apply in_app_or in Hv as [Hv|Hv].
     - rewrite (blanks_views _ _ Hv), view_blank. split; [reflexivity | intros []; reflexivity].
     - unfold V in Hv. rewrite map_map in Hv. apply in_map_iff in Hv as [c [<- Hc]].
       rewrite forallb_forall in Hab.
-      destruct (comment_line_view ind c Hind (Hab c Hc)) as [A [B [_ [D _]]]].
-      split; [exact A|]. intros so. unfold walk_stop, cline. rewrite A, B, D, orb_true_r.
+      destruct (comment_line_view ind c Hind (Hab c Hc)) as [A [_ [D _]]].
+      split; [exact A|]. intros so. unfold walk_stop, cline. rewrite A, D, orb_true_r.
       destruct so; reflexivity.
   Qed.
 
@@ -931,18 +927,18 @@ Section Groups.
 End Groups.
 
 (* ----- the upward walk ----- *)
-Lemma walk_up_app so A C :
-  (forall v, In v A -> walk_stop so v = false) -> walk_up so (A ++ C) = (A ++ walk_up so C)%list.
+Lemma walk_up_app so sq A C :
+  (forall v, In v A -> walk_stop so sq v = false) -> walk_up so sq (A ++ C) = (A ++ walk_up so sq C)%list.
 Proof.
   induction A as [|a r IH]; intros H; [reflexivity|].
   cbn [app walk_up]. rewrite (H a (or_introl eq_refl)).
   f_equal. apply IH. intros v Hv. apply H. now right.
 Qed.
 
-Lemma walk_up_sub so l v : In v (walk_up so l) -> In v l /\ walk_stop so v = false.
+Lemma walk_up_sub so sq l v : In v (walk_up so sq l) -> In v l /\ walk_stop so sq v = false.
 Proof.
   induction l as [|a r IH]; cbn [walk_up]; [intros []|].
-  destruct (walk_stop so a) eqn:E; [intros []|].
+  destruct (walk_stop so sq a) eqn:E; [intros []|].
   intros [<-|H]; [split; [now left | exact E]|]. destruct (IH H) as [H1 H2]. split; [now right | exact H2].
 Qed.
 
@@ -954,8 +950,8 @@ Qed.
 
 (* C: everything above a group, nearest line first, line 0 last.  quiet: whatever the walk still collects
    there contributes no comment text *)
-Definition quiet (so : bool) (C : list lview) : Prop :=
-  C <> [] /\ forall v, In v (walk_up so (removelast C)) -> v_comment v = "".
+Definition quiet (so sq : bool) (C : list lview) : Prop :=
+  C <> [] /\ forall v, In v (walk_up so sq (removelast C)) -> v_comment v = "".
 
 Lemma is_space_NL : is_space NL = true.
 Proof. reflexivity. Qed.
@@ -1010,13 +1006,13 @@ Section Above.
   Proof.
     induction cs as [|c r IH]; intros H; [split; reflexivity|].
     simpl in H. apply andb_true_iff in H as [Hc Hr]. destruct (IH Hr) as [I1 I2].
-    destruct (comment_line_view ind c Hind Hc) as [_ [_ [C [_ E]]]].
+    destruct (comment_line_view ind c Hind Hc) as [_ [C [_ E]]].
     unfold V in *. cbn [map filter]. unfold cline at 1 3. rewrite C. cbn [negb].
     split; [f_equal; exact I1 | f_equal; [exact E | exact I2]].
   Qed.
 
-  Lemma comment_above_group so g C : fld_ok g = true -> quiet so C ->
-    comment_above so (rev (V (pre_lines ind g)) ++ C) = join_text (f_above g).
+  Lemma comment_above_group so g C : fld_ok g = true -> quiet so false C ->
+    comment_above so false (rev (V (pre_lines ind g)) ++ C) = join_text (f_above g).
   Proof.
     intros Hg [Hne Hq]. destruct (fld_ok_parts g Hg) as [_ [_ [_ [Hab _]]]].
     unfold comment_above. rewrite removelast_app by exact Hne.
@@ -1033,43 +1029,43 @@ Section Above.
   Qed.
 
   Lemma last_line_stop g : fld_ok g = true ->
-    exists vs v, V (render_fld ind g) = (vs ++ [v])%list /\ (v_isdef v || v_quote v) = true.
+    exists vs v, V (render_fld ind g) = (vs ++ [v])%list /\ forall sq, walk_stop true sq v = true.
   Proof.
     intros Hg. destruct (fld_ok_parts g Hg) as [_ [_ [_ [_ [_ Hbe]]]]].
     rewrite render_fld_split. destruct (f_below g) as [[q s | q a ms z]|].
     - exists (V (pre_lines ind g ++ [field_line ind g])), (vw (ind ++ qtok q ++ s ++ qtok q)). split.
       + rewrite !V_app. simpl. now rewrite <- app_assoc.
-      + destruct (doc_one_view ind q Hind s Hbe) as [_ [B _]]. rewrite B. apply orb_true_r.
+      + destruct (doc_one_view ind q Hind s Hbe) as [_ [_ [C [D _]]]]. intros sq. unfold walk_stop.
+        rewrite C, D. apply orb_true_r.
     - simpl in Hbe. apply andb_true_iff in Hbe as [_ Hz].
       exists (V (pre_lines ind g ++ field_line ind g :: (ind ++ qtok q ++ a) :: map (fun m => ind ++ m) ms)),
              (vw (ind ++ z ++ qtok q)). split.
       + unfold render_below, V. rewrite !map_app. cbn [map app]. rewrite map_app. cbn [map app].
         rewrite <- !app_assoc. reflexivity.
-      + destruct (doc_close_view ind q Hind z Hz) as [_ [B _]]. rewrite B. apply orb_true_r.
+      + destruct (doc_close_view ind q Hind z Hz) as [_ [_ [_ [C D]]]]. intros sq. unfold walk_stop.
+        rewrite C, D. apply orb_true_r.
     - exists (V (pre_lines ind g)), (vw (field_line ind g)). split.
       + now rewrite V_app.
-      + destruct (fline_view ind Hind g Hg) as [A _]. now rewrite A.
+      + destruct (fline_view ind Hind g Hg) as [A _]. intros sq. unfold walk_stop. now rewrite A.
   Qed.
 
-  Lemma quiet_after so g C : fld_ok g = true -> C <> [] -> quiet so (rev (V (render_fld ind g)) ++ C).
+  Lemma quiet_after sq g C : fld_ok g = true -> C <> [] -> quiet true sq (rev (V (render_fld ind g)) ++ C).
   Proof.
     intros Hg Hne. destruct (last_line_stop g Hg) as [vs [v [E Hs]]].
     split.
     - rewrite E, rev_app_distr. simpl. discriminate.
     - rewrite removelast_app by exact Hne. rewrite E, rev_app_distr. cbn [rev app walk_up].
-      unfold walk_stop. rewrite Hs. intros w [].
+      rewrite Hs. intros w [].
   Qed.
 
-  Lemma quiet_hdr so hdr : hdr <> [] -> forallb (fun l => hdr_ok so (vw l)) hdr = true -> quiet so (rev (V hdr)).
+  Lemma quiet_hdr so sq hdr : hdr <> [] -> forallb (fun l => hdr_ok so sq (vw l)) hdr = true -> quiet so sq (rev (V hdr)).
   Proof.
     intros Hne H. split.
     - intros E. apply (f_equal (@rev _)) in E. rewrite rev_involutive in E. destruct hdr; [congruence | discriminate E].
     - intros v Hv. apply walk_up_sub in Hv as [Hv Hq]. apply in_removelast in Hv. apply in_rev in Hv.
       unfold V in Hv. apply in_map_iff in Hv as [l [<- Hl]].
       rewrite forallb_forall in H. specialize (H l Hl). unfold hdr_ok in H.
-      apply andb_true_iff in H as [_ H]. unfold walk_stop in Hq.
-      apply orb_false_iff in Hq as [Hq Hq3]. apply orb_false_iff in Hq as [_ Hq2].
-      rewrite Hq2, Hq3 in H. simpl in H. now apply String.eqb_eq.
+      apply andb_true_iff in H as [_ H]. rewrite Hq in H. simpl in H. now apply String.eqb_eq.
   Qed.
 End Above.
 
@@ -1083,9 +1079,9 @@ Section RoundTrip.
   Lemma blank_not_defines f n v : In v (V (repeat "" n)) -> defines f v = false.
   Proof. intros H. rewrite (blanks_views n v H), view_blank. reflexivity. Qed.
 
-  Lemma scan_fields so f fs : forall C t,
-    forallb fld_ok fs = true -> quiet so C ->
-    find_field so f C (V (flat_map (render_fld ind) fs ++ repeat "" t)) = option_map triple (docs_fields fs f).
+  Lemma scan_fields f fs : forall C t,
+    forallb fld_ok fs = true -> quiet true false C ->
+    find_field true false f C (V (flat_map (render_fld ind) fs ++ repeat "" t)) = option_map triple (docs_fields fs f).
   Proof.
     induction fs as [|g fs' IH]; intros C t Hfs HC.
     - simpl flat_map. simpl app. rewrite <- (app_nil_r (V _)).
@@ -1100,7 +1096,7 @@ Section RoundTrip.
         destruct (fline_view ind Hind g Hg) as [A [B [_ D]]].
         cbn [V map app find_field]. unfold defines. rewrite A, B, En. cbn [andb option_map].
         unfold triple, fld_doc; cbn [d_above d_inline d_below].
-        rewrite (comment_above_group ind Hind so g C Hg HC), D.
+        rewrite (comment_above_group ind Hind true g C Hg HC), D.
         f_equal. f_equal.
         destruct (fld_ok_parts g Hg) as [_ [_ [_ [_ [_ Hbe]]]]].
         destruct (f_below g) as [d|].
@@ -1121,12 +1117,20 @@ Proof. now apply str_all_repeat. Qed.
 
 (* MAIN: the scanner, run on the printed layout, returns exactly the documentation written for the field
    (and None exactly when the class does not declare it) *)
+(* the shape of the upward walk the round trip relies on: it stops at code lines (docstring lines included) and does
+   NOT stop at comment lines that merely mention a triple-quote token *)
+Lemma fix_walk_on : FIX_WALK = true.
+Proof. reflexivity. Qed.
+Lemma walk_quote_off : walk_stops_at_quote_lines_gen = false.
+Proof. reflexivity. Qed.
+
 Theorem scan_render L f :
   wf_layout L = true ->
   scan_lines_gen (render L) f = option_map triple (docs L f).
 Proof.
   unfold wf_layout. intros H. apply andb_true_iff in H as [H Hf]. apply andb_true_iff in H as [Hne Hh].
-  rewrite bridge_view in Hh. rewrite bridge_scan_lines. unfold render, docs.
+  rewrite bridge_view in Hh. rewrite bridge_scan_lines. rewrite fix_walk_on, walk_quote_off in *.
+  unfold render, docs.
   fold (V (l_hdr L ++ flat_map (render_fld (spaces (l_ind L))) (l_fields L) ++ repeat "" (l_trail L))).
   rewrite V_app, find_field_skip.
   2:{ intros v Hv. apply not_def_not_defines. unfold V in Hv. apply in_map_iff in Hv as [l [<- Hl]].
@@ -1160,7 +1164,7 @@ Theorem scan_class_render k L f :
   scan_class_gen k f = scan_of (docs L f, last_assoc f (k_args k) "").
 Proof.
   intros Hwf Hc. unfold scan_class_gen, scan_class. rewrite Hc, fix_entry_on.
-  change (scan_lines HASH COLON EQUALS TRIPLE_S TRIPLE_D split_step_gen FIX_WALK (render L) f) with (scan_lines_gen (render L) f).
+  change (scan_lines HASH COLON EQUALS TRIPLE_S TRIPLE_D split_step_gen FIX_WALK walk_stops_at_quote_lines_gen (render L) f) with (scan_lines_gen (render L) f).
   rewrite (scan_render L f Hwf). unfold scan_of. cbn [fst snd andb]. destruct (docs L f) as [d|]; reflexivity.
 Qed.
 
